@@ -1295,6 +1295,77 @@ fn late_subscription_covers_every_already_known_topic() {
     report(name, "C01", "64 subsets of 6 topics published before the subscription x 8 filters x QoS 0/1 x with/without another subscriber", cases, fail);
 }
 
+/// C01 (and C17 for the shared form): SUBSCRIBE / UNSUBSCRIBE take effect however they are batched with the client's own
+/// publishes: after the batch, the client receives later messages exactly once if its last word was SUBSCRIBE and not at
+/// all if it was UNSUBSCRIBE
+// @native props=C01,C17 tier=quick fn=Router::handle_device_payload(Subscribe/Unsubscribe/Publish in one batch)+DataLog::remove_waiters_for_id+Scheduler::untrack
+#[test]
+fn subscribe_and_unsubscribe_take_effect_however_they_are_batched() {
+    let name = "rumqttd::Router::handle_device_payload#subscription_state_after_a_mixed_batch";
+    #[derive(Clone, Copy, Debug, PartialEq)]
+    enum B { PubOwn, Unsub, Sub, PubOther }
+    let kinds = [B::PubOwn, B::Unsub, B::Sub, B::PubOther];
+    let mut cases = 0u64;
+    let mut fail: Option<String> = None;
+    'outer: for shared in [false, true] {
+        let f = if shared { "$share/g/u/+" } else { "u/+" };
+        for pre_subscribed in [true, false] {
+            for len in 1..=4u32 {
+                for code in 0..4usize.pow(len) {
+                    let batch: Vec<B> = (0..len).map(|k| kinds[(code / 4usize.pow(k)) % 4]).collect();
+                    for one_batch in [true, false] {
+                        cases += 1;
+                        let desc = format!("filter {:?}, subscribed beforehand (and caught up): {}, client sends {:?} {}; then another client publishes twice on u/1", f, pre_subscribed, batch, if one_batch { "as ONE batch" } else { "one packet at a time" });
+                        let mut r = new_router();
+                        let c = connect(&mut r, "c", true).unwrap();
+                        let o = connect(&mut r, "o", true).unwrap();
+                        if pre_subscribed {
+                            send(&mut r, &c, vec![subscribe(1, &[(f, 0)])]);
+                            send(&mut r, &o, vec![publish("u/1", 0, 0, "warm", false)]);
+                            let _ = receive_all(&mut r, &c);
+                        }
+                        let mut subscribed = pre_subscribed;
+                        let mut packets = vec![];
+                        for (k, b) in batch.iter().enumerate() {
+                            match b {
+                                B::PubOwn => packets.push(publish("u/1", 0, 0, &format!("own{}", k), false)),
+                                B::PubOther => packets.push(publish("elsewhere", 0, 0, "x", false)),
+                                B::Unsub => { packets.push(unsubscribe(10 + k as u16, &[f])); subscribed = false; }
+                                B::Sub => { packets.push(subscribe(10 + k as u16, &[(f, 0)])); subscribed = true; }
+                            }
+                        }
+                        if one_batch {
+                            send(&mut r, &c, packets);
+                        } else {
+                            for p in packets {
+                                send(&mut r, &c, vec![p]);
+                            }
+                        }
+                        let during: Vec<String> = receive_all(&mut r, &c).into_iter().map(|g| g.1).collect();
+                        let mut d = during.clone();
+                        d.sort();
+                        let nd = d.len();
+                        d.dedup();
+                        if d.len() != nd || during.iter().any(|m| !m.starts_with("own")) {
+                            fail = Some(format!("input=[{}] detail=[while the batch was served the client received {:?}: a message twice, or one it never could match]", desc, during));
+                            break 'outer;
+                        }
+                        send(&mut r, &o, vec![publish("u/1", 0, 0, "after1", false)]);
+                        send(&mut r, &o, vec![publish("u/1", 0, 0, "after2", false)]);
+                        let after: Vec<String> = receive_all(&mut r, &c).into_iter().map(|g| g.1).filter(|m| m.starts_with("after")).collect();
+                        let want: Vec<String> = if subscribed { vec!["after1".into(), "after2".into()] } else { vec![] };
+                        if after != want {
+                            fail = Some(format!("input=[{}] detail=[afterwards the client received {:?}, expected {:?} (its last word was {})]", desc, after, want, if subscribed { "SUBSCRIBE" } else { "UNSUBSCRIBE / never subscribed" }));
+                            break 'outer;
+                        }
+                    }
+                }
+            }
+        }
+    }
+    report(name, "C01,C17", "plain and shared filter x subscribed beforehand or not x all sequences of 1..4 packets over {own publish on the topic, UNSUBSCRIBE, SUBSCRIBE, unrelated publish} x sent as one batch / one at a time", cases, fail);
+}
+
 /// C01/C09: outgoing-buffer-full back-pressure (Unschedule -> Busy -> Ready) neither loses nor repeats messages
 // @native props=C01,C09 tier=quick fn=Router::{consume,forward_device_data}+Outgoing::push_forwards (BufferFull path)
 #[test]
